@@ -176,15 +176,18 @@ CLAIMS = {
        "Kind tagging by member/method names uses the stems derived from the store names plus a fixed alias list (equilibrium_phases, solid_solutions, "
        "reaction_temperature ...)."),
  "C11": dict(
-  technique="shift-direction rule on the in-place advective copy loops (affine index analysis of Rxn_copy source/destination vs. the loop update)",
-  text=("Only ONE clause of C11 is decided statically - 'with pure advection the solution in cell i after a shift equals the previous solution of "
+  technique="shift-direction rule on the in-place advective copy loops (affine index analysis) + exact rational water-balance identity of every generated mixing recipe",
+  text=("Two structural clauses of C11 are decided statically. (2) 'element amounts are moved, never created': every mixing recipe the transport "
+        "code generates itself (mobile/stagnant exchange of -stagnant 1, dispersion recipes of init_mix) returns the target cell its own water - "
+        "the factors weighted by the water of the source cells sum to the water of the target cell as an exact rational identity in the code's "
+        "symbols (for equal cells: the factors sum to 1). (1) 'with pure advection the solution in cell i after a shift equals the previous solution of "
         "its upstream neighbour': every in-place shift loop over the solution store (ADVECTION, TRANSPORT column shift) copies cell i-d into cell i "
         "and must update its loop variable by -d (symbolically in d = 1 or +-ishift) and start at the downstream end, so that each source cell is "
         "read before it is overwritten. A loop walking with the copy direction would smear the inflow solution through the whole column in one "
         "shift. Everything else in C11 (conservation of the column inventory, mixing-factor arithmetic, convexity, stagnant zones, multicomponent "
         "diffusion, boundary conditions) quantifies over run-time numbers and is NOT decided; the file-scope state of transport.cpp is reported "
         "under C06."),
-  note=NOTE_COMMON + "A deliberately minimal claim (2 loops, 4 obligations). It says nothing about conservation or bounded mixing."),
+  note=NOTE_COMMON + "A deliberately minimal claim (2 shift loops, 4 generated recipes). It says nothing about user-given MIX factors, multicomponent diffusion or boundary cells."),
  "C12": dict(
   technique="Butcher-tableau extraction by reaching-definition dataflow on the CFG of rk_kinetics + exact rational order conditions (rooted trees to order 5) + step-bookkeeping shape",
   text=("Static analysis of Phreeqc::rk_kinetics only (the explicit integrator): the stage formulas Set_moles(sum a_sj*k_j), the stage "
